@@ -112,6 +112,18 @@ def run(ctx):
         mask = rng.choice([0xFFFFFFFF, 0x80000000, 0xFF000000, 0xDEADBEEF, 1 << rng.randrange(32), rng.randrange(1 << 32),
                            rng.randrange(1 << 32) & rng.randrange(1 << 32), 1 << 32, None])
         check(np.array(vals, np.uint32), vals, 32, mask, rng.random() < 0.5, widthtok="w")
+    # ---- masks made of whole bytes / nibbles, every pattern (a selection that is contiguous in memory, or has holes between selected
+    # bytes, is where byte-wise shortcuts differ from the bit formula), on 16- and 32-bit ports, both orders, list and array inputs
+    for width, base in ((16, np.uint16), (32, np.uint32)):
+        nb = width // 8
+        vals = [0x12345678 & (2 ** width - 1), 2 ** width - 1, 0, 0x80C4A2E1 & (2 ** width - 1), rng.randrange(1 << width)]
+        pats = [sum(0xFF << (8 * i) for i in range(nb) if (p >> i) & 1) for p in range(1, 2 ** nb)]
+        pats += [sum(0xF << (4 * i) for i in range(2 * nb) if (p >> i) & 1) for p in ([rng.randrange(1, 2 ** (2 * nb)) for _ in range(12)] + [0b0101, 0b1001, 2 ** (2 * nb) - 2])]
+        for mask in pats:
+            for big in (False, True):
+                check(np.array(vals, base), vals, width, mask, big, widthtok="w")
+                if mask >= 2 ** (width // 2):                       # a list takes its width from the mask
+                    check(list(vals), vals, width, mask, big, kind="list", widthtok=None)
     # ---- long acquisitions (whatever the implementation does for large inputs: chunking, low-memory paths): the same bit formula,
     # evaluated with NumPy; sizes around the powers of two where such paths usually switch
     for case in range(8 if ctx.quick else 60):
@@ -158,15 +170,28 @@ def run(ctx):
         dtype = rng.choice([None, np.uint8, np.int8, np.bool_])
         start = rng.choice([None, None, 0, 1, 2, len(vals), len(vals) + 1, -1])
         count = rng.choice([None, None, 0, 1, 2, len(vals), max(0, len(vals) - (start or 0)), len(vals) + 1, -1])
-        kind = rng.choice(["list", "native", "swapped", "strided", "readonly", "tuple"])
+        kind = rng.choice(["list", "native", "swapped", "strided", "readonly", "tuple", "bytearray", "memoryview", "array.array", "range"])
         base = {8: np.uint8, 16: np.uint16, 32: np.uint32}[width]
-        if kind in ("list", "tuple"):
+        if kind in ("list", "tuple", "bytearray", "memoryview", "array.array", "range"):
             if mask is None:
                 mask = 2 ** width - 1
-            # the port width of a sequence comes from the mask
+            # the port width of a sequence comes from the mask; a sequence is a sequence of sample VALUES whatever buffer it may export
             w2 = 8 if mask < 256 else 16 if mask < 65536 else 32
             vals2 = [v & (2 ** w2 - 1) for v in vals]
-            arr = list(vals2) if kind == "list" else tuple(vals2)
+            if kind in ("bytearray", "memoryview"):
+                vals2 = [v & 0xFF for v in vals2]                       # byte-valued samples on a port of any width
+                arr = bytearray(vals2) if kind == "bytearray" else memoryview(bytearray(vals2))
+            elif kind == "array.array":
+                import array as _array
+                code = rng.choice(["B", "H", "I"])
+                vals2 = [v & (2 ** (8 * _array.array(code).itemsize) - 1) for v in vals2]
+                arr = _array.array(code, vals2)
+            elif kind == "range":
+                lo = rng.randrange(0, 2 ** w2 - 8)
+                vals2 = list(range(lo, lo + len(vals)))
+                arr = range(lo, lo + len(vals))
+            else:
+                arr = list(vals2) if kind == "list" else tuple(vals2)
             check(arr, vals2, w2, mask, big, dtype, start, count, kind, widthtok=None)
             continue
         if kind == "native":
